@@ -28,6 +28,16 @@ func (a *analyzer) prepass() {
 	for name, idx := range syncCallers {
 		a.syncOK[name] = a.checkSyncCaller(name, idx)
 	}
+	a.shared = map[types.Object]*sharedVar{}
+	a.litConc = map[*ast.FuncLit]string{}
+	a.goneLits = map[*ast.FuncLit]bool{}
+	for _, fi := range a.funcList {
+		a.findGoneLits(fi)
+	}
+	for _, fi := range a.funcList {
+		a.findShared(fi)
+	}
+	a.findCondLockers()
 }
 
 func (a *analyzer) parents(root ast.Node) {
